@@ -65,6 +65,8 @@ func c14Case(c *core.Ctx, r *core.Rand, i int, caseDir string) {
 	if r.P(1, 4) {
 		failAt = r.Intn(nf)
 	}
+	fileStyle := gen.DefaultStyle
+	fileStyle.R, fileStyle.WS = r, r.Intn(6)
 	for k := nf - 1; k >= 0; k-- {
 		f := &c14file{arg: args[k], state: r.Intn(4)}
 		if r.P(2, 3) {
@@ -96,11 +98,11 @@ func c14Case(c *core.Ctx, r *core.Rand, i int, caseDir string) {
 		if k == failAt {
 			f.fail = r.Range(1, 4)
 		}
-		f.src = gen.DefaultStyle.Source(f.prog)
+		f.src = fileStyle.Source(f.prog)
 		switch f.fail {
 		case 1:
 			f.prog = append(f.prog, gen.Out{E: gen.Filt{X: gen.Lit{V: gen.Int(1)}, Name: "divided_by", Args: []gen.Expr{gen.Lit{V: gen.Int(0)}}}})
-			f.src = gen.DefaultStyle.Source(f.prog)
+			f.src = fileStyle.Source(f.prog)
 		case 4:
 			// break / continue outside any loop of the file itself (possibly inside a loop of an includer)
 			var ctl gen.Node = gen.Break{}
@@ -108,7 +110,7 @@ func c14Case(c *core.Ctx, r *core.Rand, i int, caseDir string) {
 				ctl = gen.Continue{}
 			}
 			f.prog = append(f.prog, gen.If{Conds: []gen.Expr{gen.Lit{V: gen.Bool(true)}}, Bodies: [][]gen.Node{{gen.Text{S: "x"}, ctl}}}, gen.Text{S: "after"})
-			f.src = gen.DefaultStyle.Source(f.prog)
+			f.src = fileStyle.Source(f.prog)
 		case 2:
 			f.src += "{{ 'unterminated }}"
 		case 3:
@@ -147,7 +149,15 @@ func c14Case(c *core.Ctx, r *core.Rand, i int, caseDir string) {
 		badArg = r.Intn(4)
 		top = append(top, gen.Include{E: []gen.Expr{gen.Var{Name: "nothing"}, gen.Lit{V: gen.Int(3)}, gen.Var{Name: "arr"}, gen.Var{Name: "m"}}[badArg]})
 	}
-	topSrc := gen.DefaultStyle.Source(top)
+	// printed in one of six white-space styles: tags and objects may span several lines (what follows a multi-line tag still
+	// belongs to the same file, in the same directory)
+	topStyle := gen.DefaultStyle
+	topStyle.R, topStyle.WS = r, r.Intn(6)
+	topSrc := topStyle.Source(top)
+	if r.P(1, 3) {
+		topSrc = "{{ n\n | plus: 0\n}}{% assign\n multi = 1\n%}" + topSrc
+		top = append([]gen.Node{gen.Out{E: gen.Filt{X: gen.Var{Name: "n"}, Name: "plus", Args: []gen.Expr{gen.Lit{V: gen.Int(0)}}}}, gen.Assign{Name: "multi", E: gen.Lit{V: gen.Int(1)}}}, top...)
+	}
 
 	// layout
 	pathMode := r.Intn(3) // 0 absolute, 1 relative, 2 no path
@@ -402,6 +412,17 @@ func c14CacheLifecycle(c *core.Ctx, r *core.Rand, cwd string) {
 		if !got.Same(wantThrough) {
 			c.Violate("include|cache-lifecycle|registered-source-not-used|"+resClass(got), "a source registered with ParseTemplateAndCache is used when no such file exists (also when the path runs through a regular file), exactly as it was registered (the caller may reuse its buffer)",
 				map[string]any{"registered_path": "plainfile/part.html (plainfile is a regular file)", "expected": wantThrough.Brief(), "observed": got.Brief()})
+		}
+	}
+	// a source registered under an unclean spelling of its path is found under the path include computes
+	if _, pr := core.ParseCache(e, "[unclean {{ n }}]", dir+"/./sub/../uncl.html", 1); pr.OK() {
+		wantU := core.Run(e, "[unclean {{ n }}]", b)
+		gotU := core.RunAt(e, "{% include 'uncl.html' %}", filepath.Join(dir, "top.liquid"), 1, b)
+		c.Eval(2)
+		c.Obs("cache_lifecycle_steps", 1)
+		if !gotU.Same(wantU) {
+			c.Violate("include|cache-lifecycle|unclean-registration-path|"+resClass(gotU), "a source registered with ParseTemplateAndCache is used when no such file exists - also when the path it was registered under was not in its shortest spelling",
+				map[string]any{"registered_under": "<dir>/./sub/../uncl.html", "included_as": "uncl.html from <dir>/top.liquid", "expected": wantU.Brief(), "observed": gotU.Brief()})
 		}
 	}
 	versions := []string{"<li class=\"item\">{{ s | upcase }}, {{ n }}</li> and a good deal of trailing text " + strings.Repeat("x", r.Intn(40)), "<li>{{ n }}</li>", "", "v4 {{ n | plus: 1 }}{% if t %} yes{% endif %} " + strings.Repeat("longer than all before ", 3), "z"}
